@@ -17,6 +17,29 @@ class Fault(Exception):
     """raised by an instrumented callback when told to fail"""
 
 
+class FaultKeyError(Fault, KeyError):
+    pass
+
+
+class FaultValueError(Fault, ValueError):
+    pass
+
+
+class FaultZeroDivision(Fault, ZeroDivisionError):
+    pass
+
+
+class FaultIndexError(Fault, IndexError):
+    pass
+
+
+class FaultRuntime(Fault, RuntimeError):
+    pass
+
+
+FAULT_TYPES = [Fault, FaultKeyError, FaultValueError, FaultZeroDivision, FaultIndexError, FaultRuntime]
+
+
 class Ids:
     """numbering of labels by first appearance"""
 
@@ -68,6 +91,7 @@ class Rig:
         self.calls = 0          # global invocation counter (model, loss, storage-update)
         self.kind_calls = {"model": 0, "loss": 0, "storage": 0, "impute": 0}
         self.fail_at = {}       # global counter value -> True  (fault injection)
+        self.faults_raised = 0
         self.log = []           # event log of the current step
         self.imp_calls = []     # imputer calls of the current step
         self.steps = []         # per-step records
@@ -87,7 +111,9 @@ class Rig:
         self.kind_calls[kind] += 1
         self.log.append(kind[0].upper())
         if self.fail_at.get(c):
-            raise Fault(f"{kind} callback told to fail at invocation {c}")
+            self.faults_raised += 1
+            # the exception TYPE varies with the position: library code must not swallow particular types
+            raise FAULT_TYPES[c % len(FAULT_TYPES)](f"{kind} callback told to fail at invocation {c}")
         return c
 
     def xlist(self, x):
@@ -201,7 +227,7 @@ class Rig:
                 common = dict(model_function=self.model_fn, loss_function=self.loss_fn, feature_names=self.names)
                 if self.kind in ("pfi", "sage"):
                     cls = IncrementalPFI if self.kind == "pfi" else IncrementalSage
-                    kw = {}
+                    kw = {} if self.dynamic else {"dynamic_setting": False}
                     if not default_ctor:
                         kw = dict(storage=self.storage, imputer=imputer, n_inner_samples=self.n_inner,
                                   dynamic_setting=self.dynamic)
@@ -310,6 +336,7 @@ class Rig:
         rows_before = self.storage_rows()
         x_snapshot, y_snapshot, names_snapshot = copy.deepcopy(x), copy.deepcopy(y), list(self.names)
         calls0 = self.calls
+        faults0 = self.faults_raised
         kc0 = dict(self.kind_calls)
         self.draws = hrng.Scripted(pyrandom.Random(self.rng.randrange(10 ** 9) if seed is None else seed),
                                    real_fn=lambda r: r.random(),
@@ -342,6 +369,7 @@ class Rig:
                                   for a, b in self.storage_updates[nupd0:]]
         rec["est"] = self.estimates()
         rec["seen"] = getattr(self.ex, "seen_samples", None)
+        rec["fault_raised"] = self.faults_raised > faults0
         rec["mutated"] = (x != x_snapshot) or (y != y_snapshot) or (self.names != names_snapshot) \
             or (list(x.keys()) != list(x_snapshot.keys()))
         rec["draw_log"] = [(k, n) for k, n, _ in self.draws.log]
@@ -406,6 +434,10 @@ class Rig:
         return req
 
     def effective_alpha(self):
+        """the smoothing parameter the real object uses, as an exact rational (the default 0.001 is a float)"""
+        a = getattr(self.ex, "_smoothing_alpha", None)
+        if a is not None:
+            return Q(a)
         return self.alpha if self.alpha is not None else Q(1, 1000)
 
 
